@@ -262,6 +262,145 @@ fn transcript_cmd(args: &[String]) -> i32 {
     }
 }
 
+/// Fan the run indices of one check out to `jobs` worker processes and merge what they report.
+#[allow(clippy::too_many_arguments)]
+fn run_workers(
+    bin: &std::path::Path,
+    id: &str,
+    prop: &dyn Prop,
+    tier: Tier,
+    seed: u64,
+    jobs: u64,
+    runs: Option<&str>,
+    profile: &str,
+    rayon_threads: &str,
+) -> Result<Aggregate, i32> {
+    let mut children = Vec::new();
+    for j in 0..jobs {
+        let mut c = Command::new(bin);
+        c.arg("worker").arg(id)
+            .arg("--tier").arg(tier.name())
+            .arg("--seed").arg(seed.to_string())
+            .arg("--jobs").arg(jobs.to_string())
+            .arg("--index").arg(j.to_string())
+            .arg("--profile").arg(profile)
+            .env("RAYON_NUM_THREADS", rayon_threads)
+            // keep freed memory in the process: zstd contexts and 4 MiB write buffers are
+            // allocated per run, and returning them to the OS each time costs more in page
+            // faults than the simulated runs themselves (3-10x)
+            .env("MALLOC_TRIM_THRESHOLD_", "4000000000")
+            .env("MALLOC_MMAP_THRESHOLD_", "33554432")
+            .env("MALLOC_TOP_PAD_", "268435456")
+            .stdout(Stdio::piped());
+        if std::env::var("VERIF_DEBUG").is_err() {
+            // shuttle prints an unconditional line per detected deadlock; deadlocks are data here
+            c.stderr(Stdio::null());
+        }
+        if let Some(r) = runs {
+            c.arg("--runs").arg(r);
+        }
+        match c.spawn() {
+            Ok(ch) => children.push(ch),
+            Err(e) => {
+                eprintln!("cannot spawn worker {}: {e}", bin.display());
+                return Err(2);
+            }
+        }
+    }
+    let mut readers = Vec::new();
+    for mut ch in children {
+        let mut out = ch.stdout.take().unwrap();
+        readers.push(std::thread::spawn(move || {
+            let mut s = String::new();
+            let _ = out.read_to_string(&mut s);
+            let st = ch.wait();
+            (s, st)
+        }));
+    }
+    let mut pagg = Aggregate::default();
+    for r in readers {
+        let (s, st) = r.join().unwrap();
+        let code = st.as_ref().ok().and_then(|s| s.code());
+        if code == Some(alloc::TRIP_EXIT_CODE) {
+            // the allocation tripwire fired inside this worker: a verdict, not a harness error
+            if let Some(line) = s.lines().rev().find(|l| l.contains("alloc_tripwire")) {
+                if let Ok(v) = serde_json::from_str::<Value>(line) {
+                    let case = &v["alloc_tripwire"];
+                    let idx = case["case"].as_str().and_then(|c| c.strip_prefix("idx")).and_then(|c| c.parse::<u64>().ok()).unwrap_or(0);
+                    pagg.violations.push(Violation {
+                        property: id.to_string(),
+                        class: "garbage-allocation".into(),
+                        detail: format!("[{profile} build] allocation request of {} bytes while opening prefix {} of a {}-byte archive", v["request_bytes"], case["prefix"], case["len"]),
+                        spec: json!({"from_index": idx, "prefixes": [case["prefix"]]}),
+                        engine: prop.engine().into(),
+                        index: idx,
+                        event_log_digest: 0,
+                    });
+                    continue;
+                }
+            }
+        }
+        let ok = st.map(|s| s.success()).unwrap_or(false);
+        let last = s.lines().last().unwrap_or("");
+        match serde_json::from_str::<Aggregate>(last) {
+            Ok(a) if ok => pagg.merge(a),
+            _ => {
+                eprintln!("worker failed (status ok={ok}); tail: {}", &last[..last.len().min(300)]);
+                return Err(2);
+            }
+        }
+    }
+    Ok(pagg)
+}
+
+/// `selftest determinism`: every engine, the same seeds executed by two differently shaped
+/// process pools (4 vs 16 workers, different RAYON_NUM_THREADS, hence different processes,
+/// batch boundaries and hash-map keys); the sets of per-run digests (schedule trace x event
+/// log / history / archive bytes) and all counters must be identical.
+fn selftest(args: &[String]) -> i32 {
+    let what = args.first().map(|s| s.as_str()).unwrap_or("determinism");
+    if what != "determinism" {
+        eprintln!("usage: selftest determinism [--runs-scale N]");
+        return 2;
+    }
+    let exe = std::env::current_exe().unwrap();
+    let seed = base_seed(args);
+    let scale: u64 = arg_val(args, "--runs-scale").and_then(|s| s.parse().ok()).unwrap_or(1);
+    let plan: [(&str, u64); 12] = [
+        ("C06", 20_000), ("C05", 2_000), ("C04", 600), ("C01", 2_000), ("C02", 1_000), ("C08", 8),
+        ("C13", 10_000), ("C03", 5_000), ("C15", 16), ("C16", 2_000), ("C19", 600), ("C07", 24),
+    ];
+    let mut report = Vec::new();
+    let mut bad = 0;
+    for (id, runs) in plan {
+        let prop = props::lookup(id).unwrap();
+        let runs = (runs * scale).to_string();
+        let a = run_workers(&exe, id, prop.as_ref(), Tier::Quick, seed, 4, Some(&runs), "fast", "2");
+        let b = run_workers(&exe, id, prop.as_ref(), Tier::Quick, seed, 16, Some(&runs), "fast", "5");
+        let (Ok(a), Ok(b)) = (a, b) else { return 2 };
+        let same = a.digests == b.digests && a.counters == b.counters && a.maxima == b.maxima && a.evaluations == b.evaluations;
+        let only_a = a.digests.difference(&b.digests).count();
+        let only_b = b.digests.difference(&a.digests).count();
+        println!("{id}: runs={} digests={} identical={same} (only in 4-worker pool: {only_a}, only in 16-worker pool: {only_b})", a.runs, a.digests.len());
+        if !same {
+            bad += 1;
+            for (k, v) in &a.counters {
+                if b.counters.get(k) != Some(v) {
+                    println!("  counter {k}: {v} vs {:?}", b.counters.get(k));
+                }
+            }
+        }
+        report.push(json!({"property": id, "runs": a.runs, "evaluations": a.evaluations, "distinct_digests": a.digests.len(), "identical": same,
+            "digests_only_in_pool_a": only_a, "digests_only_in_pool_b": only_b}));
+    }
+    let out = json!({"selftest": "determinism", "seed": seed, "pool_a": {"workers": 4, "RAYON_NUM_THREADS": 2}, "pool_b": {"workers": 16, "RAYON_NUM_THREADS": 5},
+        "note": "each seed is executed twice in different fresh processes with different batch boundaries; per-run digests cover the schedule trace and the event log / history / archive bytes",
+        "results": report, "diffs": bad});
+    let _ = std::fs::create_dir_all(format!("{VERIF_DIR}/selftest"));
+    let _ = std::fs::write(format!("{VERIF_DIR}/selftest/determinism.json"), serde_json::to_string_pretty(&out).unwrap() + "\n");
+    if bad == 0 { 0 } else { 1 }
+}
+
 fn check(args: &[String]) -> i32 {
     let id = args[0].clone();
     let Some(prop) = props::lookup(&id) else {
@@ -294,82 +433,10 @@ fn check(args: &[String]) -> i32 {
     let mut per_profile: Vec<(&'static str, Aggregate)> = Vec::new();
     for profile in prop.profiles() {
         let bin = bin_for(profile);
-        let mut children = Vec::new();
-        for j in 0..jobs {
-            let mut c = Command::new(&bin);
-            c.arg("worker").arg(&id)
-                .arg("--tier").arg(tier.name())
-                .arg("--seed").arg(seed.to_string())
-                .arg("--jobs").arg(jobs.to_string())
-                .arg("--index").arg(j.to_string())
-                .arg("--profile").arg(profile)
-                .env("RAYON_NUM_THREADS", "2")
-                // keep freed memory in the process: zstd contexts and 4 MiB write buffers are
-                // allocated per run, and returning them to the OS each time costs more in page
-                // faults than the simulated runs themselves (3-10x)
-                .env("MALLOC_TRIM_THRESHOLD_", "4000000000")
-                .env("MALLOC_MMAP_THRESHOLD_", "33554432")
-                .env("MALLOC_TOP_PAD_", "268435456")
-                .stdout(Stdio::piped());
-            if std::env::var("VERIF_DEBUG").is_err() {
-                // shuttle prints an unconditional line per detected deadlock; deadlocks are data here
-                c.stderr(Stdio::null());
-            }
-            if let Some(r) = &runs {
-                c.arg("--runs").arg(r);
-            }
-            match c.spawn() {
-                Ok(ch) => children.push(ch),
-                Err(e) => {
-                    eprintln!("cannot spawn worker {}: {e}", bin.display());
-                    return 2;
-                }
-            }
+        match run_workers(&bin, &id, prop.as_ref(), tier, seed, jobs, runs.as_deref(), profile, "2") {
+            Ok(a) => per_profile.push((profile, a)),
+            Err(code) => return code,
         }
-        let mut readers = Vec::new();
-        for mut ch in children {
-            let mut out = ch.stdout.take().unwrap();
-            readers.push(std::thread::spawn(move || {
-                let mut s = String::new();
-                let _ = out.read_to_string(&mut s);
-                let st = ch.wait();
-                (s, st)
-            }));
-        }
-        let mut pagg = Aggregate::default();
-        for r in readers {
-            let (s, st) = r.join().unwrap();
-            let code = st.as_ref().ok().and_then(|s| s.code());
-            if code == Some(alloc::TRIP_EXIT_CODE) {
-                // the allocation tripwire fired inside this worker: a verdict, not a harness error
-                if let Some(line) = s.lines().rev().find(|l| l.contains("alloc_tripwire")) {
-                    if let Ok(v) = serde_json::from_str::<Value>(line) {
-                        let case = &v["alloc_tripwire"];
-                        let idx = case["case"].as_str().and_then(|c| c.strip_prefix("idx")).and_then(|c| c.parse::<u64>().ok()).unwrap_or(0);
-                        pagg.violations.push(Violation {
-                            property: id.clone(),
-                            class: "garbage-allocation".into(),
-                            detail: format!("[{profile} build] allocation request of {} bytes while opening prefix {} of a {}-byte archive", v["request_bytes"], case["prefix"], case["len"]),
-                            spec: json!({"from_index": idx, "prefixes": [case["prefix"]]}),
-                            engine: prop.engine().into(),
-                            index: idx,
-                            event_log_digest: 0,
-                        });
-                        continue;
-                    }
-                }
-            }
-            let ok = st.map(|s| s.success()).unwrap_or(false);
-            let last = s.lines().last().unwrap_or("");
-            match serde_json::from_str::<Aggregate>(last) {
-                Ok(a) if ok => pagg.merge(a),
-                _ => {
-                    eprintln!("worker failed (status ok={ok}); tail: {}", &last[..last.len().min(300)]);
-                    return 2;
-                }
-            }
-        }
-        per_profile.push((profile, pagg));
     }
     let mut divergences: Vec<Violation> = Vec::new();
     if prop.compare_profiles() && per_profile.len() == 2 {
@@ -510,6 +577,7 @@ fn main() {
         "replay" => replay(&rest),
         "minimise" => minimise_cmd(&rest),
         "transcript" => transcript_cmd(&rest),
+        "selftest" => selftest(&rest),
         other => {
             eprintln!("unknown subcommand {other}");
             2
